@@ -7,6 +7,7 @@ package c08
 import (
 	"encoding/binary"
 	"math/rand"
+	"strings"
 	"time"
 
 	"github.com/miscreant/miscreant.go"
@@ -452,6 +453,10 @@ func keStream(rng *rand.Rand, syms []string, term string, srvIP string, port int
 		case "unkbig":
 			b = keRec(b, uint16(1024+rng.Intn(1000)), false, make([]byte, 65535), -1)
 		default:
+			if lv, ok := keLvRec(rng, s, srvIP, port); ok {
+				b = append(b, lv...)
+				continue
+			}
 			if cs, ok := keCookie[s]; ok {
 				for i := 0; i < cs[0]; i++ {
 					b = keRec(b, 5, false, rndBytes(rng, cs[1]), -1)
@@ -473,8 +478,89 @@ func keStream(rng *rand.Rand, syms []string, term string, srvIP string, port int
 		b = append(b, rndBytes(rng, 1+rng.Intn(3))...)
 	case "eofb":
 		b = keRec(b, uint16(1024+rng.Intn(1000)), false, rndBytes(rng, 3), 10)
+	default:
+		if lv, ok := keLvRec(rng, term, srvIP, port); ok {
+			b = append(b, lv...)
+		}
 	}
 	return b
+}
+
+// keIsLv: a length-variant record symbol "<type>.<len>.<crit>" of Robust.tla (KeLvSyms / KeLvTerms).
+func keIsLv(sym string) bool { return strings.Count(sym, ".") == 2 }
+
+func keHasLv(syms []string, term string) bool {
+	for _, s := range syms {
+		if keIsLv(s) {
+			return true
+		}
+	}
+	return keIsLv(term)
+}
+
+// keLvRec serialises one length-variant record: the declared body length is chosen independently
+// of the record type; as many body bytes follow as declared ("beyond": fewer). Bodies of the
+// fixed-size types whose length is not 2 are filled with 0xFF (the filler Robust.tla assumes).
+func keLvRec(rng *rand.Rand, sym string, srvIP string, port int) ([]byte, bool) {
+	p := strings.Split(sym, ".")
+	if len(p) != 3 {
+		return nil, false
+	}
+	types := map[string]uint16{"np": 1, "err": 2, "warn": 3, "aead": 4, "ck": 5, "srv": 6, "port": 7, "unk": uint16(1024 + rng.Intn(1000))}
+	typ, ok := types[p[0]]
+	if !ok {
+		return nil, false
+	}
+	crit := p[2] == "c"
+	ff := func(n int) []byte {
+		x := make([]byte, n)
+		for i := range x {
+			x[i] = 0xff
+		}
+		return x
+	}
+	var body []byte
+	declared := -1
+	switch p[1] {
+	case "0":
+	case "1":
+		body = ff(1)
+		if p[0] == "ck" || p[0] == "unk" {
+			body = rndBytes(rng, 1)
+		}
+	case "2":
+		switch p[0] {
+		case "aead":
+			body = []byte{0, 15}
+		case "port":
+			body = []byte{byte(port >> 8), byte(port)}
+		case "err", "warn":
+			body = []byte{0, 1}
+		default:
+			body = []byte{0, 0}
+		}
+	case "3":
+		body = ff(3)
+	case "4":
+		body = ff(4)
+	case "big":
+		body = ff(40)
+	case "typ":
+		switch p[0] {
+		case "ck":
+			body = rndBytes(rng, 124)
+		case "srv":
+			body = []byte(srvIP)
+		default:
+			body = rndBytes(rng, 2*rng.Intn(8))
+		}
+	case "beyond":
+		body = rndBytes(rng, 3)
+		declared = 13
+	default:
+		return nil, false
+	}
+	return keRec(nil, typ, crit, body, declared), true
 }
 
 // ---------------------------------------------------------------- CSPTP
